@@ -152,9 +152,11 @@ func (s *jwtSigner) Hash() []byte {
 	s.mut.RUnlock()
 
 	hash := sha256.New()
-	hash.Write(stringx.ToBytes(jwk.KeyID))
-	hash.Write(stringx.ToBytes(jwk.Algorithm))
-	hash.Write(stringx.ToBytes(s.iss))
+	// every part is followed by a separator, so that adjacent parts cannot run into each other
+	for _, part := range []string{jwk.KeyID, jwk.Algorithm, s.iss} {
+		hash.Write(stringx.ToBytes(part))
+		hash.Write([]byte{0})
+	}
 
 	return hash.Sum(nil)
 }
